@@ -103,18 +103,32 @@ def check_to_cbor_array(ctx, rule):
     oks = [o for o in outs if o["kind"] == "ok"]
     good = False
     det = {}
-    if len(oks) == 1 and oks[0]["idx"] != "term":
+    if len(oks) == 1:
         inner = oks[0]["inner"]
         det["returns"] = show(inner)[:160]
         if inner[0] == "aggr" and inner[1] == "ciborium::value::Value" and inner[2] == "Array":
-            st = f.blocks[oks[0]["bb"]]["stmts"][oks[0]["idx"]]
-            d = codec.find_def_stmt(pv, st["rv"]["ops"][0], oks[0]["bb"], oks[0]["idx"])
-            if d and d[0] == "stmt" and d[1]["k"] == "aggr":
-                s = normalize(Seq(f, pv).of_operand(d[1]["ops"][0], d[2], d[3]))
+            s = None
+            if oks[0]["idx"] == "term":
+                # `collect::<Result<Vec<_>>>().map(Value::Array)`: the Ok value is the reduction of a combinator call, not a
+                # statement - the sequence value of its payload term
+                if inner[3]:
+                    s = normalize(Seq(f, pv).of_value(inner[3][0][1]))
+            else:
+                st = f.blocks[oks[0]["bb"]]["stmts"][oks[0]["idx"]]
+                d = codec.find_def_stmt(pv, st["rv"]["ops"][0], oks[0]["bb"], oks[0]["idx"])
+                if d and d[0] == "stmt" and d[1]["k"] == "aggr":
+                    s = normalize(Seq(f, pv).of_operand(d[1]["ops"][0], d[2], d[3]))
+            if s is not None:
                 det["sequence"] = str(s)[:240]
                 if s[0] == "map" and s[2][0] == "elems" and s[2][2] == 0 and s[2][3] is None and strip_sites(s[2][1]) == P0:
                     F = strip_sites(s[1])
                     good = F[0] == "tryok" and is_call(F[1]) and F[1][1].endswith("::to_cbor_value") and F[1][2] == (X,)
-    others = [o for o in outs if o["kind"] not in ("ok", "propagate")]
+    def _passes_on(o):
+        # `r.map(Value::Array)`: the Err of r handed on unchanged is a propagation
+        if o["kind"] != "err" or not oks or not oks[0]["inner"][3]:
+            return False
+        okp = oks[0]["inner"][3][0][1]
+        return okp[0] == "tryok" and o["inner"] == ("field", ("variant", okp[1], "Err"), "0")
+    others = [o for o in outs if o["kind"] not in ("ok", "propagate") and not _passes_on(o)]
     ctx.ob(rule, "helper:to_cbor_array", good and not others,
            "to_cbor_array(c) = Value::Array([e.to_cbor_value()? for e in c]), every element once and in order", where=f.span, detail=det)
